@@ -415,7 +415,7 @@ var recTypeName = map[int64]string{1: "metadata", 2: "entry", 3: "state", 4: "cr
 
 // Fault describes how an on-disk image is derived from a kill image.
 type Fault struct {
-	Kind string `json:"kind"` // clean | trunc-eof | trunc-zero | zero-sector | sector-subset | bitflip
+	Kind string `json:"kind"` // clean | trunc-eof | trunc-zero | zero-sector | zero-earlier-segment | sector-subset | bitflip
 	File string `json:"file,omitempty"`
 	Off  int64  `json:"off,omitempty"`
 	// sector-subset: sectors [Off/512 .. +N) of the unsynced region; bit i of Mask set = sector i reached
@@ -474,7 +474,7 @@ func (f Fault) apply(im *Image, base *Image) (*Image, error) {
 			n = int64(len(cur.Data))
 		}
 		out.Files[idx] = File{Name: cur.Name, Data: cur.Data[:n:n], Size: f.Off}
-	case "trunc-zero", "zero-sector":
+	case "trunc-zero", "zero-sector", "zero-earlier-segment":
 		n := f.Off
 		if n > int64(len(cur.Data)) {
 			n = int64(len(cur.Data))
@@ -533,6 +533,7 @@ type region struct {
 	Lo, Hi int64 // [Lo,Hi): bytes that differ from / lie beyond the durable image
 	Size   int64 // preallocated size to use for zero-fill variants
 	Drop   bool  // later segments exist in the image and must be dropped for a tear of this file
+	Opt    bool  // optimizedFsync was in force
 	Frames []Frame
 }
 
@@ -586,7 +587,7 @@ func unsyncedRegions(im, base *Image, seg int64) []region {
 		if size < hi {
 			size = hi
 		}
-		out = append(out, region{File: f.Name, Lo: lo, Hi: hi, Size: size, Drop: i < len(wals)-1, Frames: frames})
+		out = append(out, region{File: f.Name, Lo: lo, Hi: hi, Size: size, Drop: i < len(wals)-1, Opt: im.Opt, Frames: frames})
 	}
 	return out
 }
